@@ -394,6 +394,59 @@ Theorem C05_cut_image_is_synced_prefix : forall opt seg meta ops o c,
 Proof. exact multi_segment_cut. Qed.
 Print Assumptions C05_cut_image_is_synced_prefix.
 
+(* ---------- END TO END, any number of segments, reopen at ANY snapshot ----------
+   The same for Open(at) with an arbitrary walpb.Snapshot 'at' (a saved marker or not). Open selects the files
+   from the last one whose name index is <= at.Index on (computed from the names alone; the sequence check
+   never rejects a written directory), so ReadAll starts with a fresh decoder and an empty state in the
+   middle of the log: the crc record at the head of the first selected file seeds the decoder, the hard
+   state record behind it restores the state, and — proved from 'cut() names the new file lastEntryIndex+1' —
+   every entry in the files that were NOT selected is at or below at.Index, so nothing is lost by not reading
+   them: the result is effect_at(prefix of ALL saved records), with every fdatasync'ed record inside.
+   Additional hypotheses, both about reading at 'at' at all:
+     - the saved records are readable at 'at': effect at (any prefix) is defined, i.e. no index gap above
+       at.Index and no marker with at's index and another term (raft never produces either);
+     - when Open selects the tail ALONE (w_idx w <= at.Index) in a history with closed segments, the crash
+       leaves the tail's head (crc, metadata, hard state) intact. Without it the statement is false of
+       wal.Open(at) as an API: a tail whose head state record is lost (possible under optimizedFsync, where
+       cut() does not fdatasync the head it writes) is read with an EMPTY HardState although an earlier
+       segment holds a durable one. The node's restart path opens only at markers ValidSnapshotEntries still
+       decodes; a marker that selects the tail alone lies in the tail behind its head, so the case is not
+       reached as long as raft never rewrites entries at or below a marker. *)
+Theorem C05_cut_image_is_synced_prefix_at : forall opt seg meta ops o c at_,
+  data_ok meta -> Forall op_wf (ops ++ [o]) -> Forall not_release (ops ++ [o]) ->
+  let w0 := w_run opt seg meta ops in
+  let w := w_step w0 o in
+  (w_tailsize w - blen (w_tail w) = 0 \/ 8 <= w_tailsize w - blen (w_tail w)) ->
+  synced_off w0 w <= c -> c <= blen (sg_bytes (tail_file w)) ->
+  (w_closed w <> [] -> 16 <= c) ->
+  (w_closed w <> [] -> w_idx w <= sn_index at_ ->
+     forall c0 st recs, c0 < 2 ^ 32 -> w_tail w = fst (encode_all c0 (hdr meta st ++ recs)) ->
+       blen (fst (encode_all c0 (hdr meta st))) <= c) ->
+  (forall n, effect at_ (firstn n (lrecs (ops ++ [o]))) <> None) ->
+  (forall c0 recs recs1 x recs2 j, c0 < 2 ^ 32 -> w_tail w = fst (encode_all c0 recs) ->
+     recs = recs1 ++ x :: recs2 ->
+     c = blen (fst (encode_all c0 recs1)) + j -> 8 <= j < blen (frame_of (snd (encode_all c0 recs1)) x) ->
+     no_crc_collision_cut (snd (encode_all c0 recs1)) x j) ->
+  match final_result (reopen (set_last_bytes (w_files w) (img_trunc c)) (Some at_)) with
+  | RAErr _ => True
+  | RAOk _ st ents _ _ =>
+      exists k, synced_recs w0 <= k /\
+                effect at_ (firstn (N.to_nat k) (lrecs (ops ++ [o]))) = Some (st, ents)
+  end.
+Proof. exact multi_segment_cut_at. Qed.
+Print Assumptions C05_cut_image_is_synced_prefix_at.
+
+(* Open's selection on a written directory depends on the names only: the same files whatever the crash did
+   to the bytes of the tail *)
+Theorem C05_selection_from_names : forall opt seg meta ops at_,
+  Forall not_release ops ->
+  let w := w_run opt seg meta ops in
+  exists k, (k <= length (w_closed w))%nat /\ nth k (map sg_idx (w_closed w) ++ [w_idx w]) 0 <= sn_index at_ /\
+    forall b, select_files (w_closed w ++ [with_bytes (tail_file w) b]) at_
+              = Some (skipn k (w_closed w) ++ [with_bytes (tail_file w) b]).
+Proof. exact select_at. Qed.
+Print Assumptions C05_selection_from_names.
+
 (* every file of such a history is described: the closed files are the encoder streams of whole segments
    (head = crc record carrying the chained crc, metadata, the hard state in force), the tail is the stream of
    the last one, the logical records of all segments in order are exactly the saved records *)
@@ -482,6 +535,55 @@ Proof.
   split; [vm_compute; discriminate|]. split; [vm_compute; discriminate|]. split.
   - apply no_cut_beyond_stream. vm_compute. discriminate.
   - vm_compute. auto.
+Qed.
+
+(* the hypotheses of the multi-segment theorems are satisfiable (optimizedFsync, 128-byte segments: the second
+   Save cuts; the crash is inside a Save into the second segment; the image keeps everything written, for
+   which the collision and head hypotheses are vacuous: no_cut_beyond_tail, head_within_tail): reopening at
+   the zero snapshot returns all three entries, reopening at the marker {1,1} — Open selects both files, the
+   marker lies in the second — returns the entries above it; both with the hard state of the last Save *)
+Example C05_ex_multi_segment :
+  let e1 := {| e_type := 0; e_term := 1; e_index := 1; e_data := Some [104; 105]; e_id := 7; e_dtype := 0; e_ts := 0 |} in
+  let e2 := {| e_type := 0; e_term := 1; e_index := 2; e_data := Some [106]; e_id := 8; e_dtype := 0; e_ts := 0 |} in
+  let e3 := {| e_type := 0; e_term := 2; e_index := 3; e_data := Some [107]; e_id := 9; e_dtype := 0; e_ts := 0 |} in
+  let st1 := {| hs_term := 1; hs_vote := 1; hs_commit := 0 |} in
+  let st2 := {| hs_term := 2; hs_vote := 2; hs_commit := 1 |} in
+  let mk := {| sn_index := 1; sn_term := 1 |} in
+  let ops := [OSave st1 [e1]; OSave st1 [e2]; OSnap mk] in
+  let o := OSave st2 [e3] in
+  let meta := Some [1;2;3] in
+  let w0 := w_run true 128 meta ops in
+  let w := w_step w0 o in
+  let c := 152 in
+  data_ok meta /\ Forall op_wf (ops ++ [o]) /\ Forall not_release (ops ++ [o]) /\
+  w_seq w = 1 /\ map sg_idx (w_closed w) = [0] /\ w_idx w = 3 /\ synced_recs w0 = 3 /\
+  (w_tailsize w - blen (w_tail w) = 0 \/ 8 <= w_tailsize w - blen (w_tail w)) /\
+  synced_off w0 w <= c /\ c <= blen (sg_bytes (tail_file w)) /\ (w_closed w <> [] -> 16 <= c) /\
+  blen (w_tail w) <= c /\
+  (forall n, effect mk (firstn n (lrecs (ops ++ [o]))) <> None) /\
+  match final_result (reopen (set_last_bytes (w_files w) (img_trunc c)) (Some zero_snap)) with
+  | RAOk _ st ents _ _ => st = st2 /\ ents = [e1; e2; e3]
+  | RAErr _ => False
+  end /\
+  match final_result (reopen (set_last_bytes (w_files w) (img_trunc c)) (Some mk)) with
+  | RAOk _ st ents _ _ => st = st2 /\ ents = [e2; e3]
+  | RAErr _ => False
+  end.
+Proof.
+  cbv zeta. split; [split; [repeat constructor; lia|cbn; lia]|].
+  split.
+  { repeat (constructor; [cbn [op_wf]; try (unfold snap_wf; cbn; split; reflexivity);
+      (split; [unfold hs_wf; cbn; repeat split; reflexivity|];
+       constructor; [|constructor]; split; [constructor; cbn; try reflexivity|split; [repeat constructor; lia|cbn; lia]])|]).
+    constructor. }
+  split; [repeat constructor|].
+  split; [vm_compute; reflexivity|]. split; [vm_compute; reflexivity|]. split; [vm_compute; reflexivity|].
+  split; [vm_compute; reflexivity|]. split; [left; vm_compute; reflexivity|].
+  split; [vm_compute; discriminate|]. split; [vm_compute; discriminate|]. split; [intros _; vm_compute; discriminate|].
+  split; [vm_compute; discriminate|].
+  split.
+  { intros n. do 9 (destruct n as [|n]; [vm_compute; discriminate|]). vm_compute. discriminate. }
+  split; [vm_compute; auto|]. vm_compute. auto.
 Qed.
 
 (* the hypotheses of the two-generation theorem are satisfiable: a recovered one-file directory *)
